@@ -233,3 +233,54 @@ Proof.
         -- apply Nat.eqb_neq in El. split; [intros [H _]; discriminate|]. intros [_ [_ [Hl _]]]. contradiction.
     + split; [intros [_ Hs]; repeat split; lia | intros [_ [Hs _]]; split; [reflexivity|lia]].
 Qed.
+
+Lemma existsb_map_q {A} (f : Qc -> bool) (g : A -> Qc) l :
+  existsb f (map g l) = existsb (fun x => f (g x)) l.
+Proof. induction l as [|x l IH]; [reflexivity|]. cbn [map existsb]. rewrite IH. reflexivity. Qed.
+
+(* the typed outcome: accepted exactly when every argument has the right type and the value
+   tests of sa_validate pass; a TypeError exactly when the FIRST failing test is a type test *)
+Definition bitem_q (b : bitem) : Qc := match b with BNum q => q | BNotNum => 0 end.
+
+Theorem sa_outcome_accept_iff num_reads beta_range num_sweeps :
+  sa_outcome num_reads beta_range num_sweeps = Accept <->
+  exists r s, num_reads = AInt r /\ num_sweeps = AInt s /\
+    (beta_range <> BNotSeq) /\
+    (forall items, beta_range = BSeq items -> forallb bitem_is_num items = true) /\
+    sa_validate r (match beta_range with BSeq items => Some (map bitem_q items) | _ => None end) s = true.
+Proof.
+  unfold sa_outcome, sa_validate. split.
+  - destruct num_reads as [r|]; [|discriminate].
+    destruct (r <? 1)%Z eqn:Er; [discriminate|].
+    destruct beta_range as [|items|].
+    + destruct num_sweeps as [s|]; [|discriminate]. destruct (s <=? 0)%Z eqn:Es; [discriminate|].
+      intros _. exists r, s. repeat split; try discriminate. rewrite Er, Es. reflexivity.
+    + destruct (forallb bitem_is_num items) eqn:Ef; cbn [negb]; [|discriminate].
+      destruct (existsb bitem_nonpos items) eqn:Ee; [discriminate|].
+      destruct (length items =? 2)%nat eqn:El; cbn [negb]; [|discriminate].
+      destruct num_sweeps as [s|]; [|discriminate]. destruct (s <=? 0)%Z eqn:Es; [discriminate|].
+      intros _. exists r, s. repeat split; try discriminate.
+      * intros items' [= <-]. exact Ef.
+      * rewrite Er, Es, map_length, El. cbn [negb].
+        assert (X : existsb (fun b : Qc => Qc_leb b 0) (map bitem_q items) = false).
+        { rewrite existsb_map_q. clear -Ef Ee. induction items as [|b l IH]; [reflexivity|].
+          cbn [forallb existsb] in *. apply andb_true_iff in Ef. destruct Ef as [Hb Hl].
+          apply orb_false_iff in Ee. destruct Ee as [Eb El]. rewrite (IH Hl El).
+          destruct b; [cbn [bitem_nonpos bitem_q] in *; rewrite Eb; reflexivity | discriminate]. }
+        rewrite X. reflexivity.
+    + discriminate.
+  - intros [r [s [-> [-> [Hns [Hnum Hv]]]]]].
+    destruct (r <? 1)%Z; [discriminate|].
+    destruct beta_range as [|items|]; [| |congruence].
+    + apply andb_true_iff in Hv. destruct Hv as [_ Hs]. apply negb_true_iff in Hs. rewrite Hs. reflexivity.
+    + rewrite (Hnum items eq_refl). cbn [negb].
+      rewrite map_length in Hv.
+      assert (X : existsb bitem_nonpos items = existsb (fun b : Qc => Qc_leb b 0) (map bitem_q items)).
+      { rewrite existsb_map_q. specialize (Hnum items eq_refl). clear -Hnum.
+        induction items as [|b l IH]; [reflexivity|]. cbn [forallb existsb] in *.
+        apply andb_true_iff in Hnum. destruct Hnum as [Hb Hl]. rewrite (IH Hl).
+        destruct b; [reflexivity|discriminate]. }
+      rewrite X. destruct (existsb _ (map bitem_q items)); [discriminate|].
+      destruct (length items =? 2)%nat; cbn [negb] in *; [|discriminate].
+      apply andb_true_iff in Hv. destruct Hv as [_ Hs]. apply negb_true_iff in Hs. rewrite Hs. reflexivity.
+Qed.
